@@ -597,6 +597,9 @@ def main():
                 cur += ch
             if cur.strip():
                 args.append(cur.strip())
+            # inline captures `{name}` / `{name:?}` in the format string are interpolated values too
+            for cap in re.findall(r"(?<!\{)\{([A-Za-z_][A-Za-z0-9_]*)(?::[^}]*)?\}(?!\})", pr["format"].replace("{{", "\x00").replace("}}", "\x01")):
+                args.append(cap)
             for a in args:
                 a0 = a.rstrip(") ")
                 ok = a0.startswith("escape_json_string(") or a0.endswith(".len(") or a0.endswith(".len()") \
